@@ -142,44 +142,8 @@ def string_step(ctx):
     step = ctx.fn(ISM, 'ISMPath.step')
     loc = ISM + '::ISMPath.step'
     aliases = module_aliases(mod)
-    nested = {n.name: n for n in step.body if isinstance(n, ast.FunctionDef)}
-    ctx.need('rate' in nested or len(nested) >= 2, 'step() no longer defines its rate functions as nested defs')
-    g = symarray('g', (2, 2))
-    tau = symarray('tau', (2, 2))
-    selfobj = SymObj(None, {'grad_energy': (lambda c=None: g)}, 'self')
-    # the integrator calls tell which nested function plays which role
-    icalls = [c for c in calls_in(step) if norm(c.func) == 'self.integratorfxn']
-    ctx.need(len(icalls) == 2, 'expected two integrator calls in step(), found %d' % len(icalls))
-    plain = [c for c in icalls if not any(k.arg for k in c.keywords)]
-    climb = [c for c in icalls if any(k.arg for k in c.keywords)]
-    ctx.need(len(plain) == 1 and len(climb) == 1, 'cannot tell the plain and the climbing integrator call apart')
-    plain, climb = plain[0], climb[0]
+    # the rate functions are decided where they act: step_model advances a whole model path and compares the images the integrator produces
     ev = SymEval(aliases)
-
-    def run_nested(name, args, kw):
-        fn = nested.get(name)
-        ctx.need(fn is not None, 'rate function %s is not a nested def of step()' % name)
-        paths = ev.run_fn(fn, args, kw, env=None)
-        return paths
-    # bind `self` for nested function evaluation through a wrapper environment
-    def eval_rate(name, *args, **kw):
-        fn = nested.get(name)
-        ctx.need(fn is not None, 'rate function %s is not a nested def of step()' % name)
-        env = ev.bind(fn, list(args), dict(kw))
-        env['self'] = selfobj
-        paths = ev.run_fn(fn, env=env)
-        live = [p for p in paths if p.done == 'return']
-        ctx.need(len(live) == 1, 'rate function %s does not reduce to one path' % name)
-        return live[0].ret
-    x = symarray('x', (2, 2))
-    rname = norm(plain.args[0])
-    r = eval_rate(rname, x)
-    ctx.ob('STRING-STEP', loc, 'plain images move along -grad E', equal(r, -g), 'rate = %s' % (r,), node=nested.get(rname))
-    cname = norm(climb.args[0])
-    kwname = [k.arg for k in climb.keywords if k.arg][0]
-    rc = eval_rate(cname, x, **{kwname: tau})
-    want = -g + 2 * np.einsum('ij,ij->i', g, tau)[:, None] * tau
-    ctx.ob('STRING-STEP', loc, 'climbing images move along -grad E + 2 (grad E·τ) τ', equal(rc, want), 'climbrate = %s' % (rc,), node=nested.get(cname))
     # unit tangent: evaluate on a symbolic 3-point path in the plane
     ut = ctx.fn(ISM, 'ISMPath.unittangent')
     c = symarray('c', (3, 2), real=True)
